@@ -48,7 +48,11 @@ func NewChainMultiBranch[T any](cond GraphMultiBranchCondition[T]) *ChainBranch 
 			return nil, err
 		}
 		endNodes = make([]string, 0, len(ends))
-		for end := range ends {
+		for end, selected := range ends {
+			if !selected {
+				// the condition names the node and says no
+				continue
+			}
 			endNodes = append(endNodes, end)
 		}
 		return endNodes, nil
@@ -67,7 +71,11 @@ func NewStreamChainMultiBranch[T any](cond StreamGraphMultiBranchCondition[T]) *
 			return nil, err
 		}
 		endNodes = make([]string, 0, len(ends))
-		for end := range ends {
+		for end, selected := range ends {
+			if !selected {
+				// the condition names the node and says no
+				continue
+			}
 			endNodes = append(endNodes, end)
 		}
 		return endNodes, nil
